@@ -23,6 +23,19 @@ def presentPages (img : Img) (lo hi : Nat) : Array Nat :=
   else
     (img.pages.keys.toArray.filter fun p => p0 ≤ p && p ≤ p1).qsort (· < ·)
 
+/-- every byte of the page is 0 (early exit at the first non-zero byte) -/
+def pageIsZero (p : ByteArray) : Bool := Id.run do
+  for i in [0:p.size] do
+    if p.get! i != 0 then return false
+  return true
+
+/-- pages that exist, intersect `[lo, hi)` and hold a non-zero byte -/
+def nonZeroPages (img : Img) (lo hi : Nat) : Array Nat :=
+  (presentPages img lo hi).filter fun pg =>
+    match img.pages[pg]? with
+    | some p => !pageIsZero p
+    | none => false
+
 /-- `(k, raw)` for every entry `k ∈ [2, total+2)` of FAT copy `copy` whose (masked) value is not 0 -/
 def nonFreeEntries (g : Geom) (img : Img) (copy : Nat) : Array (Nat × Nat) := Id.run do
   let start := g.fatCopyStart copy
@@ -30,7 +43,7 @@ def nonFreeEntries (g : Geom) (img : Img) (copy : Nat) : Array (Nat × Nat) := I
   let m := fatMask g.fatBits + 1
   let mut out : Array (Nat × Nat) := #[]
   let mut nextK := 2
-  for pg in presentPages img start stop do
+  for pg in nonZeroPages img start stop do
     let lo := max start (pg * pageSize) - start
     let hi := min stop ((pg + 1) * pageSize) - start
     let k0 := max nextK (lo * 8 / g.fatBits)
@@ -77,7 +90,7 @@ def checkFatCopies (g : Geom) (img : Img) : List String := Id.run do
   if !g.mirroring || g.fats ≤ 1 then return []
   for i in [0:g.fats] do
     let si := g.fatCopyStart i
-    for pg in presentPages img si (si + g.fatSizeBytes) do
+    for pg in nonZeroPages img si (si + g.fatSizeBytes) do
       let lo := max si (pg * pageSize)
       let hi := min (si + g.fatSizeBytes) ((pg + 1) * pageSize)
       for j in [0:g.fats] do
@@ -109,12 +122,18 @@ def hasRepl (s : String) : Bool := s.toList.any (· == replChar)
 /-- [after-end] [lfn-run] [dup-long] [dup-short] on the slots of one directory -/
 def checkDirSlots (upper : Char → List Char) (fatBits : Nat) (path : String) (sc : DirScan) : Array String := Id.run do
   let mut msgs : Array String := #[]
+  -- long-name slots in front of an entry but before the last slot that starts a run (0x40 flag) are orphans too
+  let strays : Array Slot := sc.entries.foldl (fun acc e =>
+    match lastRun e.lfn with
+    | some run => acc ++ (e.lfn.take (e.lfn.length - run.length)).toArray
+    | none => acc ++ e.lfn.toArray) #[]
+  let sc := { sc with orphans := (sc.orphans ++ strays).qsort fun a b => a.pos < b.pos }
   if sc.afterEnd.size > 0 then
     msgs := msgs.push s!"after-end directory '{path}': {sc.afterEnd.size} used slot(s) after the end marker, first at {sc.afterEnd[0]!.pos}"
   if sc.orphans.size > 0 then
     msgs := msgs.push s!"lfn-run directory '{path}': {sc.orphans.size} orphan long-name slot(s), first at {sc.orphans[0]!.pos}"
   for e in sc.entries do
-    match strictRun e.lfn e.sfn with
+    match strictRun ((lastRun e.lfn).getD []) e.sfn with
     | some why => msgs := msgs.push s!"lfn-run directory '{path}' entry at {e.sfn.pos}: {why}"
     | none => pure ()
   -- names
